@@ -1,62 +1,1781 @@
+// c01: differential harness "typed expressions over basic types evaluate exactly as compiled Go".
+//
+// For every valid combination of
+//
+//	operator   binary + - * / % & | ^ &^ << >> == != < <= > >=   unary - ^ ! +
+//	kind       bool int int8 int16 int32 int64 uint uint8 uint16 uint32 uint64 uintptr float32 float64 complex64 complex128 string
+//	           (shifts: count operand of every integer kind)
+//	shape      VV (var OP var)  VC (var OP typed-const)  CV (typed-const OP var)  Un (OP var)
+//	placement  global | local | cap1..cap4 | capmix | boxed   (where the VARIABLE operands live, see places)
+//
+// ONE function literal is compiled in the real gomacro interpreter (fast.Interp.Eval), obtained as a real Go func value
+// through Interface() and called (reflect.Value.Call) on many operand tuples; run-time panics are mapped to
+// panic:div0 / panic:negshift / panic:other(..), a failed Eval to compile_error.  The SAME function literal text is
+// rendered into a generated Go program (<out>/oracle/, go.mod `go 1.18`, built once with `go build`) together with the
+// same operand tuples as literals; it prints one line per case "<fn id> <row> <%T> <outcome>".  Both sides render values
+// with the same code (canon.go is embedded into the oracle).  Value and type are compared line by line; every
+// difference is a rep.Fail.  Function literals that go/types rejects (constant zero divisor, negative constant shift
+// count) are kept out of the compiled batch: expected outcome compile_error, gomacro must reject them as well.
+// No model is ever consulted.  A sample of the integer / bool / string observations (what GOMACRO returned) is written
+// as Coq terms `mkCase idx FN SHAPE KIND a b obs` into cases_NNN.v (see coqCase).
 package main
 
 import (
+	_ "embed"
 	"fmt"
+	"go/ast"
+	"go/parser"
+	"go/token"
+	"go/types"
+	"hash/fnv"
 	"io"
+	"math"
+	"os"
+	"os/exec"
+	"path/filepath"
 	"reflect"
+	"sort"
+	"strconv"
+	"strings"
+	"time"
 
 	"github.com/cosmos72/gomacro/fast"
 	"verifh/vh"
 )
 
-func main() {
-	ir := fast.New()
-	ir.Comp.Globals.Stderr = io.Discard
-	ev := func(src string) (v interface{}) {
-		p := vh.Catch(func() {
-			vals, _ := ir.Eval(src)
-			if len(vals) > 0 {
-				v = vals[0].Interface()
-			}
-		})
-		if p != nil {
-			fmt.Println("ERR", src, "=>", p)
+//go:embed canon.go
+var canonSrc string
+
+// ---------------------------------------------------------------- kinds and values
+
+const (
+	cBool = iota
+	cInt
+	cUint
+	cFloat
+	cComplex
+	cString
+)
+
+type Kind struct {
+	Name string
+	Cat  int
+	Bits int // integers: width (int, uint, uintptr = 64); float 32/64; complex 64/128
+	RT   reflect.Type
+}
+
+var kinds = []*Kind{
+	{"bool", cBool, 1, reflect.TypeOf(false)},
+	{"int", cInt, 64, reflect.TypeOf(int(0))},
+	{"int8", cInt, 8, reflect.TypeOf(int8(0))},
+	{"int16", cInt, 16, reflect.TypeOf(int16(0))},
+	{"int32", cInt, 32, reflect.TypeOf(int32(0))},
+	{"int64", cInt, 64, reflect.TypeOf(int64(0))},
+	{"uint", cUint, 64, reflect.TypeOf(uint(0))},
+	{"uint8", cUint, 8, reflect.TypeOf(uint8(0))},
+	{"uint16", cUint, 16, reflect.TypeOf(uint16(0))},
+	{"uint32", cUint, 32, reflect.TypeOf(uint32(0))},
+	{"uint64", cUint, 64, reflect.TypeOf(uint64(0))},
+	{"uintptr", cUint, 64, reflect.TypeOf(uintptr(0))},
+	{"float32", cFloat, 32, reflect.TypeOf(float32(0))},
+	{"float64", cFloat, 64, reflect.TypeOf(float64(0))},
+	{"complex64", cComplex, 64, reflect.TypeOf(complex64(0))},
+	{"complex128", cComplex, 128, reflect.TypeOf(complex128(0))},
+	{"string", cString, 0, reflect.TypeOf("")},
+}
+
+var kBool = kinds[0]
+
+func (k *Kind) IsInt() bool  { return k.Cat == cInt || k.Cat == cUint }
+func (k *Kind) Signed() bool { return k.Cat == cInt }
+
+func intKinds() []*Kind {
+	var out []*Kind
+	for _, k := range kinds {
+		if k.IsInt() {
+			out = append(out, k)
 		}
-		return v
 	}
-	ev("var ga_int8 int8")
-	fmt.Println(ir.Comp.Binds["ga_int8"].Desc.Class())
-	ev("var b0 int; pb0 := &b0")
-	fmt.Println("IntBindMax", ir.Comp.IntBindMax, ir.Comp.IntBindNum)
-	for i := 0; i < 1000; i++ {
-		n := fmt.Sprintf("bx%d", i)
-		ev("var " + n + " int16")
-		if ir.Comp.Binds[n].Desc.Class() == fast.VarBind {
-			fmt.Println("boxed at", i, ir.Comp.IntBindMax, ir.Comp.IntBindNum)
+	return out
+}
+
+// norm: canonical 64-bit representation of an integer of kind k (sign- or zero-extended)
+func (k *Kind) norm(u uint64) uint64 {
+	if k.Bits >= 64 {
+		return u
+	}
+	m := uint64(1)<<uint(k.Bits) - 1
+	u &= m
+	if k.Cat == cInt && u>>uint(k.Bits-1) != 0 {
+		u |= ^m
+	}
+	return u
+}
+func (k *Kind) minU() uint64 {
+	if k.Cat == cInt {
+		return k.norm(uint64(1) << uint(k.Bits-1))
+	}
+	return 0
+}
+func (k *Kind) maxU() uint64 {
+	if k.Cat == cInt {
+		return uint64(1)<<uint(k.Bits-1) - 1
+	}
+	return k.norm(^uint64(0))
+}
+
+// fits: the small constant i is representable in the integer kind k
+func (k *Kind) fits(i int64) bool {
+	if k.Cat == cInt {
+		return k.Bits >= 64 || (i >= -(int64(1)<<uint(k.Bits-1)) && i <= int64(1)<<uint(k.Bits-1)-1)
+	}
+	return i >= 0 && (k.Bits >= 64 || uint64(i) <= k.maxU())
+}
+
+// Val: one operand or result value.  bool: U=0/1; integers: U=norm bits; floats: U=IEEE bits (float32: 32-bit pattern);
+// complex: U=real bits, U2=imag bits; string: S.
+type Val struct {
+	K  *Kind
+	U  uint64
+	U2 uint64
+	S  string
+}
+
+func iv(k *Kind, i int64) Val   { return Val{K: k, U: k.norm(uint64(i))} }
+func uv(k *Kind, u uint64) Val  { return Val{K: k, U: k.norm(u)} }
+func sv(s string) Val           { return Val{K: kinds[16], S: s} }
+func bv(b bool) Val             { return Val{K: kBool, U: b2u(b)} }
+func fv(k *Kind, f float64) Val { return Val{K: k, U: fbitsOf(k.Bits, f)} }
+func b2u(b bool) uint64 {
+	if b {
+		return 1
+	}
+	return 0
+}
+func fbitsOf(bits int, f float64) uint64 {
+	if bits == 32 {
+		return uint64(math.Float32bits(float32(f)))
+	}
+	return math.Float64bits(f)
+}
+func fOf(bits int, u uint64) float64 {
+	if bits == 32 {
+		return float64(math.Float32frombits(uint32(u)))
+	}
+	return math.Float64frombits(u)
+}
+
+func (v Val) IsZero() bool {
+	switch v.K.Cat {
+	case cString:
+		return v.S == ""
+	case cFloat:
+		return fOf(v.K.Bits, v.U) == 0
+	case cComplex:
+		return fOf(v.K.Bits/2, v.U) == 0 && fOf(v.K.Bits/2, v.U2) == 0
+	}
+	return v.U == 0
+}
+
+func (v Val) Reflect() reflect.Value {
+	r := reflect.New(v.K.RT).Elem()
+	switch v.K.Cat {
+	case cBool:
+		r.SetBool(v.U != 0)
+	case cInt:
+		r.SetInt(int64(v.U))
+	case cUint:
+		r.SetUint(v.U)
+	case cFloat:
+		r.SetFloat(fOf(v.K.Bits, v.U))
+	case cComplex:
+		r.SetComplex(complex(fOf(v.K.Bits/2, v.U), fOf(v.K.Bits/2, v.U2)))
+	case cString:
+		r.SetString(v.S)
+	}
+	return r
+}
+
+func valOf(k *Kind, r reflect.Value) Val {
+	v := Val{K: k}
+	switch k.Cat {
+	case cBool:
+		v.U = b2u(r.Bool())
+	case cInt:
+		v.U = uint64(r.Int())
+	case cUint:
+		v.U = r.Uint()
+	case cFloat:
+		v.U = fbitsOf(k.Bits, r.Float())
+	case cComplex:
+		c := r.Complex()
+		v.U, v.U2 = fbitsOf(k.Bits/2, real(c)), fbitsOf(k.Bits/2, imag(c))
+	case cString:
+		v.S = r.String()
+	}
+	return v
+}
+
+func (v Val) dec() string {
+	if v.K.Cat == cInt {
+		return strconv.FormatInt(int64(v.U), 10)
+	}
+	return strconv.FormatUint(v.U, 10)
+}
+
+// DataLit: the literal written into the operand tables of the oracle program (element type is known from the table)
+func (v Val) DataLit() string {
+	fl := func(bits int, u uint64) string {
+		if bits == 32 {
+			return fmt.Sprintf("math.Float32frombits(%#x)", u)
+		}
+		return fmt.Sprintf("math.Float64frombits(%#x)", u)
+	}
+	switch v.K.Cat {
+	case cBool:
+		return vh.CoqBool(v.U != 0)
+	case cInt, cUint:
+		return v.dec()
+	case cFloat:
+		return fl(v.K.Bits, v.U)
+	case cComplex:
+		return "complex(" + fl(v.K.Bits/2, v.U) + ", " + fl(v.K.Bits/2, v.U2) + ")"
+	}
+	return strconv.Quote(v.S)
+}
+
+// Key: stable readable typed rendering (failure keys, inputs.jsonl); floats as bit patterns
+func (v Val) Key() string {
+	switch v.K.Cat {
+	case cBool:
+		return "bool(" + vh.CoqBool(v.U != 0) + ")"
+	case cInt, cUint:
+		return v.K.Name + "(" + v.dec() + ")"
+	case cFloat:
+		return fmt.Sprintf("%s(bits %#x)", v.K.Name, v.U)
+	case cComplex:
+		return fmt.Sprintf("%s(bits %#x,%#x)", v.K.Name, v.U, v.U2)
+	}
+	return "string(" + strconv.Quote(v.S) + ")"
+}
+
+// ---------------------------------------------------------------- Coq rendering (adjust here)
+
+func coqKind(k *Kind) string { return "G" + strings.ToUpper(k.Name[:1]) + k.Name[1:] }
+
+// coqVal: (VInt GInt8 (-5)%Z) | (VInt GUint64 18446744073709551615%Z) | (VBool true) | (VStr [97;98]%N)
+func coqVal(v Val) string {
+	switch v.K.Cat {
+	case cBool:
+		return "(VBool " + vh.CoqBool(v.U != 0) + ")"
+	case cInt:
+		return "(VInt " + coqKind(v.K) + " " + vh.CoqZ(int64(v.U)) + ")"
+	case cUint:
+		return "(VInt " + coqKind(v.K) + " " + strconv.FormatUint(v.U, 10) + "%Z)"
+	case cString:
+		return "(VStr " + vh.CoqStr(v.S) + ")"
+	}
+	panic("coqVal: kind " + v.K.Name + " is never written to Coq")
+}
+
+var coqFN = map[string]string{"+": "FN_Add", "-": "FN_Sub", "*": "FN_Mul", "/": "FN_Quo", "%": "FN_Rem", "&": "FN_And", "|": "FN_Or",
+	"^": "FN_Xor", "&^": "FN_Andnot", "<<": "FN_Shl", ">>": "FN_Shr", "<": "FN_Lss", ">": "FN_Gtr", "<=": "FN_Leq", ">=": "FN_Geq",
+	"==": "FN_Eql", "!=": "FN_Neq", "u-": "FN_UnaryMinus", "u^": "FN_UnaryXor", "u!": "FN_UnaryNot", "u+": "FN_UnaryPlus"}
+
+// coqObs: (ObsVal v) | (ObsPanic PDiv0) | (ObsPanic PNegShift) | ObsCompileError ; "" = not representable (panic:other)
+func coqObs(o Outcome) string {
+	switch {
+	case o.S == "compile_error":
+		return "ObsCompileError"
+	case o.S == "panic:div0":
+		return "(ObsPanic PDiv0)"
+	case o.S == "panic:negshift":
+		return "(ObsPanic PNegShift)"
+	case strings.HasPrefix(o.S, "v:"):
+		return "(ObsVal " + coqVal(o.V) + ")"
+	}
+	return ""
+}
+
+// coqCase renders ONE correspondence case:
+//
+//	mkCase <idx> <FN> <SHAPE> <KIND of the left/only operand> <a> <b> <obs>
+//
+// a = left operand, b = right operand (whichever of them is the constant is told by SHAPE; for shifts b is the count
+// with its own kind; for unary b = VUnit).
+func coqCase(idx int, f *Fn, a, b string, obs string) string {
+	op := f.Op
+	if f.Unary {
+		op = "u" + op
+	}
+	return fmt.Sprintf("mkCase %d %s Sh%s %s %s %s %s", idx, coqFN[op], f.Shape, coqKind(f.KA), a, b, obs)
+}
+
+// ---------------------------------------------------------------- value pools and operand sets
+
+type OpSet struct {
+	ID    int
+	Kinds []*Kind
+	Rows  [][]Val
+	used  bool
+}
+
+type Const struct {
+	Text string // typed constant expression, identical in gomacro and Go: int8(-128), float32(0.1), string("ab")
+	V    Val
+	HasV bool // V is meaningful (integers, bool, string)
+}
+
+type Gen struct {
+	a        *vh.Args
+	thorough bool
+	sets     map[string][]*OpSet
+	setUse   map[string]int
+	allSets  []*OpSet
+	fns      []*Fn
+	rot      int
+	pools    map[string][]Val
+}
+
+func (g *Gen) rngFor(key string) *vh.Rng {
+	h := fnv.New64a()
+	h.Write([]byte(key))
+	return vh.NewRng(g.a.Seed ^ h.Sum64())
+}
+
+var stringPool = []string{"", "a", "ab", "b", "\x00", "\xff", "héllo", "aa", "abc", "a\x00", "B", "\xf0\x9f\x98\x80"}
+
+func (g *Gen) pool(k *Kind) []Val {
+	if p, ok := g.pools[k.Name]; ok {
+		return p
+	}
+	var out []Val
+	switch k.Cat {
+	case cBool:
+		out = []Val{bv(false), bv(true)}
+	case cInt, cUint:
+		set := map[uint64]bool{}
+		add := func(u uint64) { set[k.norm(u)] = true }
+		add(0)
+		add(1)
+		add(^uint64(0))
+		add(k.minU())
+		add(k.maxU())
+		add(k.minU() + 1)
+		add(k.maxU() - 1)
+		for b := 0; b < k.Bits; b++ {
+			p := uint64(1) << uint(b)
+			for _, u := range []uint64{p, p - 1, p + 1, -p, -p - 1, -p + 1} {
+				add(u)
+			}
+		}
+		var us []uint64
+		for u := range set {
+			us = append(us, u)
+		}
+		if k.Cat == cInt {
+			sort.Slice(us, func(i, j int) bool { return int64(us[i]) < int64(us[j]) })
+		} else {
+			sort.Slice(us, func(i, j int) bool { return us[i] < us[j] })
+		}
+		for _, u := range us {
+			out = append(out, Val{K: k, U: u})
+		}
+	case cFloat:
+		out = floatPool(k)
+	case cComplex:
+		fk := kinds[12]
+		if k.Bits == 128 {
+			fk = kinds[13]
+		}
+		parts := floatPool(fk)
+		for i := range parts {
+			for _, j := range []int{0, 1, 2, 4, 5, 10, (i * 7) % len(parts)} {
+				out = append(out, Val{K: k, U: parts[i].U, U2: parts[j].U})
+			}
+		}
+	case cString:
+		for _, s := range stringPool {
+			out = append(out, sv(s))
+		}
+	}
+	g.pools[k.Name] = out
+	return out
+}
+
+func floatPool(k *Kind) []Val {
+	fs := []float64{0, math.Copysign(0, -1), 1, -1, math.NaN(), math.Inf(1), math.Inf(-1), math.MaxFloat64, -math.MaxFloat64,
+		math.SmallestNonzeroFloat64, 0.1, 1.0 / 3, 2, 0.5, 3, 1e-320, 16777217, 9007199254740993, -0.1, 1e30}
+	if k.Bits == 32 {
+		fs[7], fs[8], fs[9], fs[15] = math.MaxFloat32, -math.MaxFloat32, math.SmallestNonzeroFloat32, 1e-40
+	}
+	var out []Val
+	for _, f := range fs {
+		out = append(out, fv(k, f))
+	}
+	return out
+}
+
+func (g *Gen) randVal(k *Kind, r *vh.Rng) Val {
+	switch k.Cat {
+	case cBool:
+		return bv(r.Bool())
+	case cInt, cUint:
+		return uv(k, r.U64())
+	case cFloat:
+		if k.Bits == 32 {
+			return Val{K: k, U: r.U64() & 0xffffffff}
+		}
+		return Val{K: k, U: r.U64()}
+	case cComplex:
+		if k.Bits == 64 {
+			return Val{K: k, U: r.U64() & 0xffffffff, U2: r.U64() & 0xffffffff}
+		}
+		return Val{K: k, U: r.U64(), U2: r.U64()}
+	}
+	n := r.Intn(9)
+	b := make([]byte, n)
+	for i := range b {
+		b[i] = "ab\x00\xffz"[r.Intn(5)]
+	}
+	return sv(string(b))
+}
+
+func (g *Gen) poolVal(k *Kind, r *vh.Rng) Val {
+	p := g.pool(k)
+	return p[r.Intn(len(p))]
+}
+
+func zeroVal(k *Kind) Val { return Val{K: k} }
+
+func (g *Gen) smallVal(k *Kind, r *vh.Rng) Val {
+	if k.IsInt() {
+		return iv(k, int64(1+r.Intn(10)))
+	}
+	return g.poolVal(k, r)
+}
+
+// shift counts around the width of the left operand: 0,1,w-1,w,w+1,63,64,65,255 and for signed count kinds -1 and min
+func shiftCounts(w int, kb *Kind) []Val {
+	var out []Val
+	seen := map[uint64]bool{}
+	add := func(v Val) {
+		if !seen[v.U] {
+			seen[v.U] = true
+			out = append(out, v)
+		}
+	}
+	for _, c := range []int64{0, 1, int64(w - 1), int64(w), int64(w + 1), 63, 64, 65, 255} {
+		if kb.fits(c) {
+			add(iv(kb, c))
+		}
+	}
+	if kb.Signed() {
+		add(iv(kb, -1))
+		add(Val{K: kb, U: kb.minU()})
+	}
+	return out
+}
+
+// pairRow / oneRow: the structured part of the operand generator (row index i of a set)
+func (g *Gen) pairRow(k *Kind, i, setIdx int, r *vh.Rng) []Val {
+	z := zeroVal(k)
+	switch i % 8 {
+	case 0:
+		if setIdx == 0 && i == 0 {
+			return []Val{z, z} // the one trivial case
+		}
+		if k.Cat == cInt {
+			return []Val{{K: k, U: k.minU()}, iv(k, -1)}
+		}
+		if k.Cat == cUint {
+			return []Val{{K: k, U: k.maxU()}, iv(k, 1)}
+		}
+		return []Val{g.poolVal(k, r), g.poolVal(k, r)}
+	case 1:
+		return []Val{g.poolVal(k, r), z}
+	case 2:
+		if i >= 8 || setIdx%2 == 1 {
+			return []Val{g.poolVal(k, r), g.poolVal(k, r)}
+		}
+		return []Val{z, g.poolVal(k, r)}
+	case 3:
+		x := g.poolVal(k, r)
+		if r.Bool() {
+			x = g.randVal(k, r)
+		}
+		return []Val{x, x}
+	case 4:
+		return []Val{g.poolVal(k, r), g.poolVal(k, r)}
+	case 5:
+		return []Val{g.randVal(k, r), g.randVal(k, r)}
+	case 6:
+		return []Val{g.randVal(k, r), g.smallVal(k, r)}
+	}
+	return []Val{g.poolVal(k, r), g.randVal(k, r)}
+}
+
+func (g *Gen) oneRow(k *Kind, i, setIdx int, r *vh.Rng) []Val {
+	switch i % 8 {
+	case 0:
+		if setIdx%4 == 0 && i == 0 {
+			return []Val{zeroVal(k)}
+		}
+		return []Val{g.poolVal(k, r)}
+	case 1:
+		if k.Cat == cInt {
+			return []Val{{K: k, U: k.minU()}}
+		}
+		if k.Cat == cUint {
+			return []Val{{K: k, U: k.maxU()}}
+		}
+		return []Val{g.poolVal(k, r)}
+	case 2:
+		if k.IsInt() {
+			return []Val{iv(k, -1)}
+		}
+		return []Val{g.poolVal(k, r)}
+	case 3, 4:
+		return []Val{g.poolVal(k, r)}
+	case 5, 6:
+		return []Val{g.randVal(k, r)}
+	}
+	return []Val{g.smallVal(k, r)}
+}
+
+// set returns the next operand set for the key (round robin over the nsets sets generated for the key)
+func (g *Gen) set(key string, ks []*Kind, nsets int, mk func(setIdx int, r *vh.Rng) [][]Val) *OpSet {
+	ss, ok := g.sets[key]
+	if !ok {
+		r := g.rngFor(key)
+		for i := 0; i < nsets; i++ {
+			s := &OpSet{ID: len(g.allSets), Kinds: ks, Rows: mk(i, r)}
+			g.allSets = append(g.allSets, s)
+			ss = append(ss, s)
+		}
+		g.sets[key] = ss
+	}
+	n := g.setUse[key]
+	g.setUse[key] = n + 1
+	return ss[n%len(ss)]
+}
+
+func (g *Gen) mul(quick, thorough int) int {
+	if g.thorough {
+		return thorough
+	}
+	return quick
+}
+
+func (g *Gen) pairSet(k *Kind) *OpSet {
+	nrows := g.mul(8, 24)
+	if k.Cat == cBool {
+		return g.set("pair:bool", []*Kind{k, k}, 1, func(int, *vh.Rng) [][]Val {
+			return [][]Val{{bv(false), bv(false)}, {bv(false), bv(true)}, {bv(true), bv(false)}, {bv(true), bv(true)}}
+		})
+	}
+	return g.set("pair:"+k.Name, []*Kind{k, k}, g.mul(16, 32), func(si int, r *vh.Rng) [][]Val {
+		var rows [][]Val
+		for i := 0; i < nrows; i++ {
+			rows = append(rows, g.pairRow(k, i, si, r))
+		}
+		return rows
+	})
+}
+
+func (g *Gen) shiftSet(ka, kb *Kind) *OpSet {
+	return g.set("shift:"+ka.Name+":"+kb.Name, []*Kind{ka, kb}, g.mul(4, 8), func(si int, r *vh.Rng) [][]Val {
+		var rows [][]Val
+		cs := shiftCounts(ka.Bits, kb)
+		for rep := 0; rep < g.mul(1, 3); rep++ {
+			for i, c := range cs {
+				var a Val
+				switch (i + si + rep) % 5 {
+				case 0:
+					a = iv(ka, -1)
+				case 1:
+					a = g.randVal(ka, r)
+				case 2:
+					a = g.poolVal(ka, r)
+				case 3:
+					a = Val{K: ka, U: ka.minU() | 1} // min+1 (signed) / 1 (unsigned)
+				default:
+					a = g.randVal(ka, r)
+				}
+				rows = append(rows, []Val{a, c})
+			}
+			rows = append(rows, []Val{g.randVal(ka, r), iv(kb, int64(r.Intn(ka.Bits+2)))})
+		}
+		if si == 0 {
+			rows = append(rows, []Val{zeroVal(ka), zeroVal(kb)})
+		}
+		return rows
+	})
+}
+
+func (g *Gen) oneSet(k *Kind) *OpSet {
+	nrows := g.mul(8, 24)
+	if k.Cat == cBool {
+		return g.set("one:bool", []*Kind{k}, 1, func(int, *vh.Rng) [][]Val { return [][]Val{{bv(false)}, {bv(true)}} })
+	}
+	return g.set("one:"+k.Name, []*Kind{k}, g.mul(16, 32), func(si int, r *vh.Rng) [][]Val {
+		var rows [][]Val
+		for i := 0; i < nrows; i++ {
+			rows = append(rows, g.oneRow(k, i, si, r))
+		}
+		return rows
+	})
+}
+
+func (g *Gen) cntSet(w int, kb *Kind) *OpSet {
+	return g.set(fmt.Sprintf("cnt:%d:%s", w, kb.Name), []*Kind{kb}, g.mul(2, 4), func(si int, r *vh.Rng) [][]Val {
+		var rows [][]Val
+		for _, c := range shiftCounts(w, kb) {
+			rows = append(rows, []Val{c})
+		}
+		for i := 0; i < g.mul(2, 8); i++ {
+			rows = append(rows, []Val{iv(kb, int64(r.Intn(w+2)))})
+		}
+		return rows
+	})
+}
+
+// ---------------------------------------------------------------- function specifications
+
+var places = []string{"global", "local", "cap1", "cap2", "cap3", "cap4", "capmix", "boxed"}
+
+type Outcome struct {
+	S string // v:<canonical value> | panic:div0 | panic:negshift | panic:other(..) | compile_error
+	V Val
+}
+
+type Fn struct {
+	ID       int
+	Op       string
+	Unary    bool
+	KA, KB   *Kind // kind of the left (only) operand, kind of the right operand (count kind for shifts; nil for unary)
+	KR       *Kind
+	Shape    string // VV VC CV Un
+	Place    string
+	C        *Const
+	Src      string
+	Params   []*Kind
+	Set      *OpSet
+	ExpectCE bool   // go/types rejects the function literal
+	CEMsg    string // its message
+	KnownKey string // failures of this function are reported under this fixed key (recorded finding)
+
+	gmErr  string
+	gmType string // result type of the gomacro func value
+	gmFunc string // its full func type
+	gm     []Outcome
+}
+
+func (f *Fn) opText() string {
+	if f.Unary {
+		return "unary" + f.Op
+	}
+	return f.Op
+}
+
+func (f *Fn) kindText() string {
+	if f.Op == "<<" || f.Op == ">>" {
+		return f.KA.Name + "," + f.KB.Name
+	}
+	return f.KA.Name
+}
+
+// operands: left and right operand of the case (constant included); row < 0: only the constant is known
+func (f *Fn) operands(row int) (a, b *Val) {
+	var vars []Val
+	if row >= 0 {
+		vars = f.Set.Rows[row]
+	}
+	get := func(i int) *Val {
+		if i < len(vars) {
+			return &vars[i]
+		}
+		return nil
+	}
+	switch f.Shape {
+	case "VV":
+		return get(0), get(1)
+	case "VC":
+		return get(0), &f.C.V
+	case "CV":
+		return &f.C.V, get(0)
+	}
+	return get(0), nil
+}
+
+func (f *Fn) operandText(row int) string {
+	var vars []Val
+	if row >= 0 {
+		vars = f.Set.Rows[row]
+	}
+	v := func(i int) string {
+		if i < len(vars) {
+			return vars[i].Key()
+		}
+		return "*"
+	}
+	switch f.Shape {
+	case "VV":
+		return "a=" + v(0) + " b=" + v(1)
+	case "VC":
+		return "a=" + v(0) + " c=" + f.C.Text
+	case "CV":
+		return "c=" + f.C.Text + " b=" + v(0)
+	}
+	return "a=" + v(0)
+}
+
+// Key: "<op> <kind> <shape> <placement> <operands>"
+func (f *Fn) Key(row int) string {
+	if f.KnownKey != "" {
+		return f.KnownKey
+	}
+	return f.opText() + " " + f.kindText() + " " + f.Shape + " " + f.Place + " " + f.operandText(row)
+}
+
+func (f *Fn) wantFuncType() string {
+	var ps []string
+	for _, p := range f.Params {
+		ps = append(ps, p.Name)
+	}
+	return "func(" + strings.Join(ps, ", ") + ") " + f.KR.Name
+}
+
+// buildSrc renders the function literal; the text is used verbatim in gomacro and in the oracle program.
+func buildSrc(op string, unary bool, shape, place string, ka, kb, kr *Kind, c *Const) (string, []*Kind) {
+	type pv struct {
+		name string
+		k    *Kind
+	}
+	var ps []pv // parameters
+	switch shape {
+	case "VV":
+		ps = []pv{{"a", ka}, {"b", kb}}
+	case "VC", "Un":
+		ps = []pv{{"a", ka}}
+	case "CV":
+		ps = []pv{{"b", kb}}
+	}
+	name := map[string]string{} // parameter -> text of the operand that reads the variable
+	pre := ""
+	for _, p := range ps {
+		name[p.name] = p.name
+	}
+	last := ps[len(ps)-1]
+	switch place {
+	case "global", "boxed":
+		pfx := "g"
+		if place == "boxed" {
+			pfx = "x"
+		}
+		for _, p := range ps {
+			gn := pfx + p.name + "_" + p.k.Name
+			pre += gn + " = " + p.name + "; "
+			name[p.name] = gn
+		}
+	case "local":
+		// left variable operand = parameter, right variable operand (CV: the only one) = local copy
+		if last.name == "b" {
+			pre = "var y " + last.k.Name + " = b; "
+			name["b"] = "y"
+		}
+	case "capmix":
+		name[last.name] = "q"
+	}
+	var expr string
+	switch shape {
+	case "VV":
+		expr = name["a"] + " " + op + " " + name["b"]
+	case "VC":
+		expr = name["a"] + " " + op + " " + c.Text
+	case "CV":
+		expr = c.Text + " " + op + " " + name["b"]
+	case "Un":
+		expr = op + name["a"]
+	}
+	R := kr.Name
+	body := pre + "return " + expr
+	dummy := func(i int) string { return fmt.Sprintf("var d%d %s = %s; _ = d%d; ", i, ps[0].k.Name, ps[0].name, i) }
+	wrap := func(inner string) string { return "return func() " + R + " { " + inner + " }()" }
+	switch place {
+	case "cap1", "cap2", "cap3", "cap4":
+		n := int(place[3] - '0')
+		for i := n; i >= 1; i-- {
+			body = wrap(dummy(i) + body)
+		}
+	case "capmix":
+		// left operand (or nothing) read 3 levels up (parameter), the last variable operand 2 levels up (local q of level 1)
+		body = wrap("var q " + last.k.Name + " = " + last.name + "; " + wrap(dummy(2)+wrap(dummy(3)+body)))
+	}
+	var sig string
+	if len(ps) == 2 && ps[0].k == ps[1].k {
+		sig = "a, b " + ka.Name
+	} else {
+		var parts []string
+		for _, p := range ps {
+			parts = append(parts, p.name+" "+p.k.Name)
+		}
+		sig = strings.Join(parts, ", ")
+	}
+	var kinds []*Kind
+	for _, p := range ps {
+		kinds = append(kinds, p.k)
+	}
+	return "func(" + sig + ") " + R + " { " + body + " }", kinds
+}
+
+func isShift(op string) bool { return op == "<<" || op == ">>" }
+func isCmp(op string) bool {
+	switch op {
+	case "==", "!=", "<", "<=", ">", ">=":
+		return true
+	}
+	return false
+}
+
+func (g *Gen) add(op string, unary bool, ka, kb *Kind, shape, place string, c *Const) *Fn {
+	kr := ka
+	if isCmp(op) && !unary {
+		kr = kBool
+	}
+	f := &Fn{ID: len(g.fns), Op: op, Unary: unary, KA: ka, KB: kb, KR: kr, Shape: shape, Place: place, C: c}
+	f.Src, f.Params = buildSrc(op, unary, shape, place, ka, kb, kr, c)
+	switch {
+	case shape == "VV" && isShift(op):
+		f.Set = g.shiftSet(ka, kb)
+	case shape == "VV":
+		f.Set = g.pairSet(ka)
+	case shape == "CV" && isShift(op):
+		f.Set = g.cntSet(ka.Bits, kb)
+	case shape == "CV":
+		f.Set = g.oneSet(kb)
+	default:
+		f.Set = g.oneSet(ka)
+	}
+	g.fns = append(g.fns, f)
+	return f
+}
+
+// placesFor: VV and unary use every placement; the constant shapes rotate through the placements in the quick tier
+func (g *Gen) placesFor(all bool) []string {
+	if all || g.thorough {
+		return places
+	}
+	g.rot++
+	return []string{places[g.rot%len(places)], places[(g.rot+3)%len(places)]}
+}
+
+func intConst(k *Kind, v Val) *Const {
+	return &Const{Text: k.Name + "(" + v.dec() + ")", V: v, HasV: true}
+}
+
+// intConsts: i-th list selected by class; values that do not fit are dropped, duplicates removed
+func intConsts(k *Kind, small []int64, withMin, withMax, withPow bool) []*Const {
+	var out []*Const
+	seen := map[uint64]bool{}
+	add := func(v Val) {
+		if !seen[v.U] {
+			seen[v.U] = true
+			out = append(out, intConst(k, v))
+		}
+	}
+	for _, s := range small {
+		if k.fits(s) {
+			add(iv(k, s))
+		}
+	}
+	if withPow {
+		add(Val{K: k, U: uint64(1) << uint(k.Bits-2)})
+	}
+	if withMin && k.Signed() {
+		add(Val{K: k, U: k.minU()})
+	}
+	if withMax {
+		add(Val{K: k, U: k.maxU()})
+	}
+	return out
+}
+
+func textConsts(k *Kind, texts ...string) []*Const {
+	var out []*Const
+	for _, t := range texts {
+		out = append(out, &Const{Text: k.Name + "(" + t + ")"})
+	}
+	return out
+}
+
+func strConsts(ss ...string) []*Const {
+	var out []*Const
+	for _, s := range ss {
+		out = append(out, &Const{Text: "string(" + strconv.Quote(s) + ")", V: sv(s), HasV: true})
+	}
+	return out
+}
+
+func (g *Gen) enumerate() {
+	ik := intKinds()
+	arith := []string{"+", "-", "*", "/", "%", "&", "|", "^", "&^"}
+	cmps := []string{"==", "!=", "<", "<=", ">", ">="}
+	shifts := []string{"<<", ">>"}
+	rotK := 0
+	for _, k := range kinds {
+		switch k.Cat {
+		case cBool:
+			for _, op := range []string{"==", "!="} {
+				for _, p := range places {
+					g.add(op, false, k, k, "VV", p, nil)
+				}
+				for _, c := range []*Const{{Text: "bool(true)", V: bv(true), HasV: true}, {Text: "bool(false)", V: bv(false), HasV: true}} {
+					for _, p := range g.placesFor(false) {
+						g.add(op, false, k, k, "VC", p, c)
+					}
+					for _, p := range g.placesFor(false) {
+						g.add(op, false, k, k, "CV", p, c)
+					}
+				}
+			}
+			for _, p := range places {
+				g.add("!", true, k, nil, "Un", p, nil)
+			}
+		case cInt, cUint:
+			for _, op := range append(append([]string{}, arith...), cmps...) {
+				for _, p := range places {
+					g.add(op, false, k, k, "VV", p, nil)
+				}
+				var vc, cv []*Const
+				switch {
+				case op == "*" || op == "/" || op == "%":
+					// powers of two and their negatives, identity/zero shortcuts, MinInt, and the constant ZERO divisor
+					vc = intConsts(k, []int64{0, 1, -1, 2, 4, 8, 256, -2, -4, 3, -3, 10}, true, true, true)
+					cv = intConsts(k, []int64{0, 1, -1, 2, 7}, true, true, true)
+				case isCmp(op):
+					vc = intConsts(k, []int64{0, 1, -1}, true, true, false)
+					cv = intConsts(k, []int64{0, 1}, true, true, false)
+				default:
+					vc = intConsts(k, []int64{0, 1, -1, 5}, true, true, true)
+					cv = intConsts(k, []int64{0, 1, -1}, true, true, false)
+				}
+				for _, c := range vc {
+					for _, p := range g.placesFor(false) {
+						g.add(op, false, k, k, "VC", p, c)
+					}
+				}
+				for _, c := range cv {
+					for _, p := range g.placesFor(false) {
+						g.add(op, false, k, k, "CV", p, c)
+					}
+				}
+			}
+			for _, op := range shifts {
+				for _, kb := range ik {
+					for _, p := range places {
+						g.add(op, false, k, kb, "VV", p, nil)
+					}
+				}
+				// VC: typed constant count; quick tier: every count value with one signed and one unsigned count kind
+				// (rotating), thorough: every count kind.  A negative constant count is a compile error in Go.
+				var cks []*Kind
+				if g.thorough {
+					cks = ik
+				} else {
+					rotK++
+					cks = []*Kind{ik[rotK%5], ik[5+rotK%6], ik[(rotK*3+2)%5]}
+				}
+				for ci, kb := range cks {
+					for _, cval := range shiftCounts(k.Bits, kb) {
+						if !g.thorough && ci == 2 && int64(cval.U) >= 0 {
+							continue // third (signed) count kind: negative counts only
+						}
+						for _, p := range g.placesFor(false) {
+							g.add(op, false, k, kb, "VC", p, intConst(kb, cval))
+						}
+					}
+				}
+				// CV: typed constant shifted by a variable count
+				for _, c := range intConsts(k, []int64{0, 1, -1, 3}, true, true, true) {
+					var cks2 []*Kind
+					if g.thorough {
+						cks2 = ik
+					} else {
+						rotK++
+						cks2 = []*Kind{ik[rotK%5], ik[5+rotK%6]}
+					}
+					for _, kb := range cks2 {
+						for _, p := range g.placesFor(false) {
+							g.add(op, false, k, kb, "CV", p, c)
+						}
+					}
+				}
+			}
+			for _, op := range []string{"-", "^", "+"} {
+				for _, p := range places {
+					g.add(op, true, k, nil, "Un", p, nil)
+				}
+			}
+		case cFloat, cComplex:
+			ops := []string{"+", "-", "*", "/", "==", "!="}
+			if k.Cat == cFloat {
+				ops = append(ops, "<", "<=", ">", ">=")
+			}
+			for _, op := range ops {
+				for _, p := range places {
+					g.add(op, false, k, k, "VV", p, nil)
+				}
+				var vc, cv []*Const
+				if k.Cat == cFloat {
+					// 1.0000000596046447763 = 1 + 2^-24 + ~2^-60: rounds to different float32 when rounded via float64 first
+					vc = textConsts(k, "0", "1", "-1", "2", "0.5", "0.1", "3", "1e30", "1.0000000596046447763")
+					cv = textConsts(k, "0", "1", "-1", "0.1")
+					if isCmp(op) {
+						vc, cv = textConsts(k, "0", "1", "0.1"), textConsts(k, "0", "0.1")
+					}
+				} else {
+					vc = textConsts(k, "0", "1", "-1", "2i", "1.5-2.5i", "0.1+0.1i")
+					cv = textConsts(k, "0", "1", "1.5-2.5i")
+					if isCmp(op) {
+						vc, cv = textConsts(k, "0", "1.5-2.5i"), textConsts(k, "0", "2i")
+					}
+				}
+				for _, c := range vc {
+					if op == "/" && strings.HasSuffix(c.Text, "(0)") {
+						// recorded finding corpus:float-quo-const-zero (gomacro rejects a constant zero float/complex
+						// divisor, Go accepts it): the class is kept out of the generator and replayed under its own key
+						f := g.add(op, false, k, k, "VC", "local", c)
+						f.KnownKey = "corpus:float-quo-const-zero"
+						continue
+					}
+					for _, p := range g.placesFor(false) {
+						g.add(op, false, k, k, "VC", p, c)
+					}
+				}
+				for _, c := range cv {
+					for _, p := range g.placesFor(false) {
+						g.add(op, false, k, k, "CV", p, c)
+					}
+				}
+			}
+			for _, op := range []string{"-", "+"} {
+				for _, p := range places {
+					g.add(op, true, k, nil, "Un", p, nil)
+				}
+			}
+		case cString:
+			for _, op := range append([]string{"+"}, cmps...) {
+				for _, p := range places {
+					g.add(op, false, k, k, "VV", p, nil)
+				}
+				for _, c := range strConsts("", "a", "ab", "\x00", "\xff", "héllo") {
+					for _, p := range g.placesFor(false) {
+						g.add(op, false, k, k, "VC", p, c)
+					}
+				}
+				for _, c := range strConsts("", "ab", "\xff") {
+					for _, p := range g.placesFor(false) {
+						g.add(op, false, k, k, "CV", p, c)
+					}
+				}
+			}
+		}
+	}
+}
+
+// ---------------------------------------------------------------- compile-error oracle: go/types
+
+func globalDecls() string {
+	var sb strings.Builder
+	for _, k := range kinds {
+		fmt.Fprintf(&sb, "var ga_%s, gb_%s, xa_%s, xb_%s %s\n", k.Name, k.Name, k.Name, k.Name, k.Name)
+	}
+	return sb.String()
+}
+
+// typecheck marks the functions whose literal is rejected by go/types (one declaration per line -> position = function)
+func (g *Gen) typecheck() error {
+	var sb strings.Builder
+	sb.WriteString("package p\n")
+	sb.WriteString(globalDecls())
+	first := strings.Count(sb.String(), "\n") + 1
+	for _, f := range g.fns {
+		fmt.Fprintf(&sb, "var _ = %s\n", f.Src)
+	}
+	fset := token.NewFileSet()
+	file, err := parser.ParseFile(fset, "c01.go", sb.String(), 0)
+	if err != nil {
+		return fmt.Errorf("generated function literals do not parse: %v", err)
+	}
+	conf := types.Config{GoVersion: "go1.18", Error: func(err error) {
+		te, ok := err.(types.Error)
+		if !ok || te.Soft {
+			return
+		}
+		line := te.Fset.Position(te.Pos).Line
+		if i := line - first; i >= 0 && i < len(g.fns) {
+			if !g.fns[i].ExpectCE {
+				g.fns[i].ExpectCE, g.fns[i].CEMsg = true, te.Msg
+			}
+		} else {
+			fmt.Fprintln(os.Stderr, "c01: unexpected go/types error outside the function table:", err)
+		}
+	}}
+	conf.Check("p", fset, []*ast.File{file}, nil) // errors are collected by conf.Error
+	return nil
+}
+
+// ---------------------------------------------------------------- compiled-Go oracle program
+
+const oracleRuntime = `
+type P2[A, B any] struct {
+	a A
+	b B
+}
+type E2[A, B, R any] struct {
+	id int
+	s  []P2[A, B]
+	f  func(A, B) R
+}
+type E1[A, R any] struct {
+	id int
+	s  []A
+	f  func(A) R
+}
+
+var out = bufio.NewWriterSize(os.Stdout, 1<<20)
+
+func call2[A, B, R any](f func(A, B) R, a A, b B) (s string) {
+	defer func() {
+		if p := recover(); p != nil {
+			s = classifyPanic(p)
+		}
+	}()
+	return "v:" + canonValue(any(f(a, b)))
+}
+func call1[A, R any](f func(A) R, a A) (s string) {
+	defer func() {
+		if p := recover(); p != nil {
+			s = classifyPanic(p)
+		}
+	}()
+	return "v:" + canonValue(any(f(a)))
+}
+func run2[A, B, R any](t []E2[A, B, R]) {
+	var z R
+	ty := fmt.Sprintf("%T", z)
+	for _, e := range t {
+		for j, p := range e.s {
+			fmt.Fprintf(out, "%d %d %s %s\n", e.id, j, ty, call2(e.f, p.a, p.b))
+		}
+	}
+}
+func run1[A, R any](t []E1[A, R]) {
+	var z R
+	ty := fmt.Sprintf("%T", z)
+	for _, e := range t {
+		for j, a := range e.s {
+			fmt.Fprintf(out, "%d %d %s %s\n", e.id, j, ty, call1(e.f, a))
+		}
+	}
+}
+`
+
+func (g *Gen) writeOracle(dir string) error {
+	if err := os.RemoveAll(dir); err != nil {
+		return err
+	}
+	if err := os.MkdirAll(dir, 0o755); err != nil {
+		return err
+	}
+	files := map[string]string{"go.mod": "module c01oracle\n\ngo 1.18\n", "canon.go": canonSrc}
+	// tables of functions grouped by signature
+	type table struct {
+		name, typ, run string
+		rows           []string
+	}
+	tabs := map[string]*table{}
+	var order []string
+	for _, f := range g.fns {
+		if f.ExpectCE {
+			continue
+		}
+		f.Set.used = true
+		var names []string
+		for _, p := range f.Params {
+			names = append(names, p.Name)
+		}
+		names = append(names, f.KR.Name)
+		key := strings.Join(names, "_")
+		t := tabs[key]
+		if t == nil {
+			t = &table{name: "t_" + key, run: fmt.Sprintf("run%d", len(f.Params)), typ: fmt.Sprintf("E%d[%s]", len(f.Params), strings.Join(names, ", "))}
+			tabs[key] = t
+			order = append(order, key)
+		}
+		t.rows = append(t.rows, fmt.Sprintf("\t{%d, s%d, %s},\n", f.ID, f.Set.ID, f.Src))
+	}
+	var sb strings.Builder
+	sb.WriteString("package main\n\nimport (\n\t\"bufio\"\n\t\"fmt\"\n\t\"os\"\n)\n")
+	sb.WriteString(oracleRuntime)
+	sb.WriteString("\n" + globalDecls())
+	sb.WriteString("\nfunc main() {\n")
+	for _, key := range order {
+		fmt.Fprintf(&sb, "\t%s(%s)\n", tabs[key].run, tabs[key].name)
+	}
+	sb.WriteString("\tout.Flush()\n}\n")
+	files["main.go"] = sb.String()
+	// operand sets
+	sb.Reset()
+	sb.WriteString("package main\n\nimport \"math\"\n\nvar _ = math.Pi\n\n")
+	for _, s := range g.allSets {
+		if !s.used {
+			continue
+		}
+		if len(s.Kinds) == 1 {
+			fmt.Fprintf(&sb, "var s%d = []%s{", s.ID, s.Kinds[0].Name)
+			for i, r := range s.Rows {
+				if i > 0 {
+					sb.WriteString(", ")
+				}
+				sb.WriteString(r[0].DataLit())
+			}
+			sb.WriteString("}\n")
+		} else {
+			fmt.Fprintf(&sb, "var s%d = []P2[%s, %s]{", s.ID, s.Kinds[0].Name, s.Kinds[1].Name)
+			for i, r := range s.Rows {
+				if i > 0 {
+					sb.WriteString(", ")
+				}
+				sb.WriteString("{" + r[0].DataLit() + ", " + r[1].DataLit() + "}")
+			}
+			sb.WriteString("}\n")
+		}
+	}
+	files["sets.go"] = sb.String()
+	// function tables, split over several files
+	sb.Reset()
+	nfile, nrows := 0, 0
+	flush := func() {
+		if sb.Len() > 0 {
+			files[fmt.Sprintf("fns_%03d.go", nfile)] = "package main\n\n" + sb.String()
+			nfile++
+			sb.Reset()
+			nrows = 0
+		}
+	}
+	for _, key := range order {
+		t := tabs[key]
+		fmt.Fprintf(&sb, "var %s = []%s{\n", t.name, t.typ)
+		for _, r := range t.rows {
+			sb.WriteString(r)
+		}
+		sb.WriteString("}\n\n")
+		nrows += len(t.rows)
+		if nrows > 1500 {
+			flush()
+		}
+	}
+	flush()
+	for name, content := range files {
+		if err := os.WriteFile(filepath.Join(dir, name), []byte(content), 0o644); err != nil {
+			return err
+		}
+	}
+	return nil
+}
+
+type oracleResult struct {
+	lines          map[[2]int]string // (fn id, row) -> "<type> <outcome>"
+	buildS, runS   float64
+	err            error
+	stderr, srcDir string
+}
+
+func goEnv() []string {
+	env := os.Environ()
+	return append(env, "GOFLAGS=-mod=mod", "GOPROXY=off", "GOSUMDB=off", "GOTOOLCHAIN=local")
+}
+
+func (g *Gen) runOracle(dir string) *oracleResult {
+	res := &oracleResult{lines: map[[2]int]string{}, srcDir: dir}
+	t0 := time.Now()
+	bin := filepath.Join(dir, "oracle.bin")
+	cmd := exec.Command("go", "build", "-o", bin, ".")
+	cmd.Dir, cmd.Env = dir, goEnv()
+	if o, err := cmd.CombinedOutput(); err != nil {
+		res.err, res.stderr = fmt.Errorf("go build of the oracle program failed: %v", err), string(o)
+		return res
+	}
+	res.buildS = time.Since(t0).Seconds()
+	t0 = time.Now()
+	run := exec.Command(bin)
+	run.Dir = dir
+	var eb strings.Builder
+	run.Stderr = &eb
+	o, err := run.Output()
+	if err != nil {
+		res.err, res.stderr = fmt.Errorf("the oracle program failed: %v", err), eb.String()
+		return res
+	}
+	res.runS = time.Since(t0).Seconds()
+	os.WriteFile(filepath.Join(dir, "output.txt"), o, 0o644)
+	for _, ln := range strings.Split(string(o), "\n") {
+		if ln == "" {
+			continue
+		}
+		parts := strings.SplitN(ln, " ", 3)
+		if len(parts) != 3 {
+			res.err = fmt.Errorf("malformed oracle line %q", ln)
+			return res
+		}
+		id, e1 := strconv.Atoi(parts[0])
+		row, e2 := strconv.Atoi(parts[1])
+		if e1 != nil || e2 != nil {
+			res.err = fmt.Errorf("malformed oracle line %q", ln)
+			return res
+		}
+		res.lines[[2]int{id, row}] = parts[2]
+	}
+	return res
+}
+
+// ---------------------------------------------------------------- the gomacro side
+
+type H struct {
+	ir  *fast.Interp
+	rep *vh.Report
+	a   *vh.Args
+	wd  *vh.Watchdog
+}
+
+func (h *H) eval(src string) (v interface{}, errs string) {
+	p := vh.Catch(func() {
+		vals, _ := h.ir.Eval(src)
+		if len(vals) > 0 {
+			v = vals[0].Interface()
+		}
+	})
+	if p != nil {
+		return nil, fmt.Sprint(p)
+	}
+	return v, ""
+}
+
+func (h *H) bindClass(name string) (fast.BindClass, bool) {
+	b := h.ir.Comp.Binds[name]
+	if b == nil {
+		return 0, false
+	}
+	return b.Desc.Class(), true
+}
+
+// setupGlobals declares the interpreter globals used by the placements "global" (ga_K, gb_K: class IntBind for
+// bool/int/uint/float/complex kinds) and "boxed" (xa_K, xb_K: class VarBind = reflect.Value slots).  The boxed state:
+// after the address of an IntBind global was taken, Env.Ints cannot be reallocated any more; once its capacity
+// (>= 1024 slots, see Interp.PrepareEnv) is exhausted Comp.NewBind gives new variables class VarBind.
+func (h *H) setupGlobals() error {
+	for _, k := range kinds {
+		for _, n := range []string{"ga_", "gb_"} {
+			if _, err := h.eval("var " + n + k.Name + " " + k.Name); err != "" {
+				return fmt.Errorf("declaring %s%s: %s", n, k.Name, err)
+			}
+			cl, ok := h.bindClass(n + k.Name)
+			want := fast.IntBind
+			if k.Cat == cString {
+				want = fast.VarBind
+			}
+			if !ok || cl != want {
+				return fmt.Errorf("global %s%s has bind class %v, expected %v", n, k.Name, cl, want)
+			}
+		}
+	}
+	if _, err := h.eval("var b0 int; pb0 := &b0"); err != "" {
+		return fmt.Errorf("taking the address of a global: %s", err)
+	}
+	n := 0
+	for ; ; n++ {
+		if n > 5000 {
+			return fmt.Errorf("no VarBind class after %d complex128 globals (IntBindMax=%d IntBindNum=%d)", n, h.ir.Comp.IntBindMax, h.ir.Comp.IntBindNum)
+		}
+		name := fmt.Sprintf("bx%d", n)
+		// one declaration per Eval call; complex128 occupies two slots of Env.Ints.  With exactly ONE free slot left a
+		// complex128 declaration fails ("internal error: attempt to reallocate Env.Ints[]": NewBind only checks
+		// IntBindNum < IntBindMax), so the last slot is filled with an int.
+		filler := "complex128"
+		if c := h.ir.Comp; c.IntBindMax != 0 && c.IntBindMax-c.IntBindNum < 2 {
+			filler = "int"
+		}
+		if _, err := h.eval("var " + name + " " + filler); err != "" {
+			return fmt.Errorf("declaring %s: %s", name, err)
+		}
+		if cl, _ := h.bindClass(name); cl == fast.VarBind {
 			break
 		}
 	}
-	ev("var xa_c128 complex128")
-	fmt.Println(ir.Comp.Binds["xa_c128"].Desc.Class())
-	for _, s := range []string{
-		`(func(a, b int8) int8 { return func() int8 { var d1 int8 = a; _ = d1; return func() int8 { var d2 int8 = a; _ = d2; return a + b }() }() })`,
-		`(func(a int8, b int16) int8 { return a << b })`,
-		`(func(a string) string { return a + string("ab\x00\xff") })`,
-		`(func(a float64) float64 { return a / float64(0) })`,
-		`(func(a int8) int8 { return a / int8(0) })`,
-		`(func(a int8) int8 { return a << int8(-1) })`,
-		`(func(a int8) int8 { return a << uint8(200) })`,
-		`(func(a int8) int8 { ga_int8 = a; return +ga_int8 })`,
-		`(func(a complex64) complex64 { return a * complex64(1.5-2i) })`,
-		`(func(a bool) bool { return a == bool(true) })`,
-		`(func(a uintptr) uintptr { return a &^ uintptr(18446744073709551615) })`,
-	} {
-		v := ev(s)
-		fmt.Println(reflect.TypeOf(v))
+	h.rep.Extra["boxed_after_filler_globals"] = n
+	h.rep.Extra["IntBindMax"] = h.ir.Comp.IntBindMax
+	for _, k := range kinds {
+		for _, nm := range []string{"xa_", "xb_"} {
+			if _, err := h.eval("var " + nm + k.Name + " " + k.Name); err != "" {
+				return fmt.Errorf("declaring %s%s: %s", nm, k.Name, err)
+			}
+			if cl, ok := h.bindClass(nm + k.Name); !ok || cl != fast.VarBind {
+				return fmt.Errorf("global %s%s has bind class %v, expected VarBind", nm, k.Name, cl)
+			}
+		}
 	}
-	f := ev(`(func(a int8, b int16) int8 { return a << b })`).(func(int8, int16) int8)
-	fmt.Println(vh.Catch(func() { f(1, -1) }))
-	g := ev(`(func(a, b int8) int8 { return func() int8 { var d1 int8 = a; _ = d1; return func() int8 { var d2 int8 = a; _ = d2; return a / b }() }() })`).(func(int8, int8) int8)
-	fmt.Println(vh.Catch(func() { g(1, 0) }))
-	fmt.Println(g(7, 2), g(-128, -1))
+	return nil
+}
+
+func callR(fn reflect.Value, args []reflect.Value) (out reflect.Value, pan string) {
+	defer func() {
+		if p := recover(); p != nil {
+			pan = classifyPanic(p)
+		}
+	}()
+	return fn.Call(args)[0], ""
+}
+
+// runFn compiles ONE function in gomacro and calls it on every operand tuple of its set
+func (h *H) runFn(f *Fn) {
+	h.wd.Beat(f.Key(-1) + " :: " + f.Src)
+	v, err := h.eval("(" + f.Src + ")")
+	if err != "" {
+		f.gmErr = err
+		return
+	}
+	fn := reflect.ValueOf(v)
+	if !fn.IsValid() || fn.Kind() != reflect.Func {
+		f.gmErr = fmt.Sprintf("Eval returned %T, not a func", v)
+		return
+	}
+	f.gmFunc = fn.Type().String()
+	if f.gmFunc != f.wantFuncType() {
+		return
+	}
+	f.gmType = fn.Type().Out(0).String()
+	f.gm = make([]Outcome, len(f.Set.Rows))
+	args := make([]reflect.Value, len(f.Params))
+	for i, row := range f.Set.Rows {
+		for j := range row {
+			args[j] = row[j].Reflect()
+		}
+		out, pan := callR(fn, args)
+		if pan != "" {
+			f.gm[i] = Outcome{S: pan}
+		} else {
+			f.gm[i] = Outcome{S: "v:" + canonValue(out.Interface()), V: valOf(f.KR, out)}
+		}
+	}
+}
+
+// ---------------------------------------------------------------- corpus
+
+const corpusUint64Depth3 = `func f(a uint64) uint64 { var q uint64 = 100; return func() uint64 { var b uint64 = 1; return func() uint64 { var c uint64 = 2; return func() uint64 { var d uint64 = 3; return a+q }() }() }() }`
+
+type corpusItem struct{ key, decl, call, want string }
+
+// corpus: the built-in regression input plus every corpus/C01/*.go.txt (directives `// key:`, `// call:`, `// want:`
+// in comment lines, the rest is the declaration)
+func loadCorpus() []corpusItem {
+	items := []corpusItem{{"corpus:uint64-read-depth3", corpusUint64Depth3, "f(7)", "uint64 107"}}
+	dir := os.Getenv("VERIF_DIR")
+	if dir == "" {
+		dir = "/verif"
+	}
+	files, _ := filepath.Glob(filepath.Join(dir, "corpus", "C01", "*.go.txt"))
+	sort.Strings(files)
+	for _, fn := range files {
+		b, err := os.ReadFile(fn)
+		if err != nil {
+			continue
+		}
+		var it corpusItem
+		var decl []string
+		for _, ln := range strings.Split(string(b), "\n") {
+			t := strings.TrimSpace(ln)
+			switch {
+			case strings.HasPrefix(t, "// key:"):
+				it.key = strings.TrimSpace(t[7:])
+			case strings.HasPrefix(t, "// call:"):
+				it.call = strings.TrimSpace(t[8:])
+			case strings.HasPrefix(t, "// want:"):
+				it.want = strings.TrimSpace(t[8:])
+			case strings.HasPrefix(t, "//"):
+			default:
+				decl = append(decl, ln)
+			}
+		}
+		it.decl = strings.TrimSpace(strings.Join(decl, "\n"))
+		dup := false
+		for _, o := range items {
+			dup = dup || o.key == it.key
+		}
+		if it.key != "" && it.call != "" && !dup {
+			items = append(items, it)
+		}
+	}
+	return items
+}
+
+func runCorpus(rep *vh.Report, wd *vh.Watchdog) {
+	for _, it := range loadCorpus() {
+		wd.Beat(it.key)
+		ir := fast.New()
+		ir.Comp.Globals.Stderr, ir.Comp.Globals.Stdout = io.Discard, io.Discard
+		got := ""
+		p := vh.Catch(func() {
+			ir.Eval(it.decl)
+			vals, _ := ir.Eval(it.call)
+			if len(vals) > 0 {
+				v := vals[0].Interface()
+				got = fmt.Sprintf("%T %v", v, v)
+			}
+		})
+		if p != nil {
+			got = "panic: " + fmt.Sprint(p)
+		}
+		if got != it.want {
+			rep.Fail(vh.Failure{Key: it.key, What: "corpus regression input differs from compiled Go", Input: map[string]string{"decl": it.decl, "call": it.call}, Got: got, Want: it.want})
+		}
+		rep.Count(it.key, true)
+		rep.Dist("place:corpus")
+	}
+}
+
+// ---------------------------------------------------------------- main
+
+func outcomeClass(s string) string {
+	switch {
+	case strings.HasPrefix(s, "v:"):
+		return "value"
+	case strings.HasPrefix(s, "panic:other"):
+		return "panic:other"
+	}
+	return s
+}
+
+type caseRef struct {
+	f   *Fn
+	row int
+}
+
+func main() {
+	a := vh.ParseArgs()
+	if strconv.IntSize != 64 {
+		fmt.Fprintln(os.Stderr, "c01: the harness assumes 64-bit int/uint/uintptr")
+		os.Exit(2)
+	}
+	rule := "one function literal per (operator, kind[, count kind], shape VV|VC|CV|Un, placement global|local|cap1..cap4|capmix|boxed[, typed constant]) over " +
+		"binary + - * / % & | ^ &^ << >> == != < <= > >= and unary - ^ ! + on the 17 basic kinds (valid Go combinations only; shifts with a count of every integer kind), " +
+		"compiled ONCE in the real interpreter and called through Interface() on operand tuples: boundary values (0, +-1, min, max, min+1, max-1, +-2^k, +-2^k+-1; " +
+		"floats +-0, +-1, NaN, +-Inf, max, smallest subnormal, 0.1, 1/3; strings incl. invalid UTF-8) and PRNG values from the seed; shift counts 0,1,w-1,w,w+1,63,64,65,255,-1,min; " +
+		"typed constants 0, +-1, +-2^k, 2^(w-2), min, max and a constant ZERO divisor / negative constant shift count (expected compile_error, oracle go/types); " +
+		"VV and unary use every placement, constant shapes rotate through the placements in the quick tier; oracle = the same function literal compiled by go build (go 1.18 module) " +
+		"called on the same tuples, value (canonical: %d, %t, %q, IEEE bits with one NaN) and %T compared exactly; non-trivial = not all operands (constants included) zero/false/empty; " +
+		"distinct by SHA-256 of (op, kinds, shape, placement, constant, operands)"
+	rep := vh.NewReport(a, rule)
+	wd := vh.NewWatchdog(rep, 60*time.Second)
+	tStart := time.Now()
+
+	// ---- corpus first
+	runCorpus(rep, wd)
+
+	// ---- enumerate, classify compile errors, write + build + run the oracle in the background
+	g := &Gen{a: a, thorough: a.Thorough(), sets: map[string][]*OpSet{}, setUse: map[string]int{}, pools: map[string][]Val{}}
+	g.enumerate()
+	if err := g.typecheck(); err != nil {
+		fmt.Fprintln(os.Stderr, "c01:", err)
+		os.Exit(2)
+	}
+	odir := a.Path("oracle")
+	if err := g.writeOracle(odir); err != nil {
+		fmt.Fprintln(os.Stderr, "c01: writing the oracle program:", err)
+		os.Exit(2)
+	}
+	orc := make(chan *oracleResult, 1)
+	go func() { orc <- g.runOracle(odir) }()
+
+	// ---- gomacro
+	ir := fast.New()
+	ir.Comp.Globals.Stderr, ir.Comp.Globals.Stdout = io.Discard, io.Discard
+	h := &H{ir: ir, rep: rep, a: a, wd: wd}
+	wd.Beat("setup globals")
+	if err := h.setupGlobals(); err != nil {
+		// the boxed / global placements cannot be produced: a harness defect, not a finding
+		fmt.Fprintln(os.Stderr, "c01: cannot set up the interpreter globals:", err)
+		os.Exit(2)
+	}
+	tG := time.Now()
+	for _, f := range g.fns {
+		h.runFn(f)
+	}
+	rep.Extra["gomacro_seconds"] = time.Since(tG).Seconds()
+	wd.Beat("waiting for the oracle build")
+	res := <-orc
+	if res.err != nil {
+		fmt.Fprintln(os.Stderr, "c01: HARNESS DEFECT:", res.err)
+		fmt.Fprintln(os.Stderr, res.stderr)
+		os.Exit(2)
+	}
+	rep.Extra["oracle_build_seconds"] = res.buildS
+	rep.Extra["oracle_run_seconds"] = res.runS
+	wd.Beat("compare")
+
+	// ---- compare
+	nfail := 0
+	fail := func(f *Fn, row int, what string, got, want string) {
+		nfail++
+		in := map[string]interface{}{"func": f.Src, "operands": f.operandText(row), "op": f.opText(), "kind": f.kindText(), "shape": f.Shape, "placement": f.Place}
+		rep.Fail(vh.Failure{Key: f.Key(row), What: what, Input: in, Got: got, Want: want})
+	}
+	groups := map[string][]caseRef{}
+	var gorder []string
+	coqEligible := func(f *Fn) bool {
+		ok := func(k *Kind) bool { return k == nil || k.Cat == cBool || k.IsInt() || k.Cat == cString }
+		return ok(f.KA) && ok(f.KB)
+	}
+	record := func(f *Fn, row int, outcome string) {
+		ax, bx := f.operands(row)
+		nontrivial := (ax != nil && !ax.IsZero()) || (bx != nil && !bx.IsZero())
+		if f.Shape == "VC" || f.Shape == "CV" {
+			if !f.C.HasV && !strings.HasSuffix(f.C.Text, "(0)") {
+				nontrivial = true
+			}
+		}
+		rep.Count(f.opText()+" "+f.kindText()+" "+f.Shape+" "+f.Place+" "+f.operandText(row), nontrivial)
+		rep.Dist("op:" + f.opText())
+		rep.Dist("kind:" + f.KA.Name)
+		rep.Dist("shape:" + f.Shape)
+		rep.Dist("place:" + f.Place)
+		rep.Dist("outcome:" + outcomeClass(outcome))
+		if f.KB != nil && isShift(f.Op) {
+			rep.Dist("countkind:" + f.KB.Name)
+		}
+		if coqEligible(f) {
+			gk := f.opText() + "|" + f.KA.Name + "|" + f.Shape
+			if _, ok := groups[gk]; !ok {
+				gorder = append(gorder, gk)
+			}
+			groups[gk] = append(groups[gk], caseRef{f, row})
+		}
+	}
+	ncompiled, nce := 0, 0
+	for _, f := range g.fns {
+		if f.ExpectCE {
+			nce++
+			if f.gmErr == "" {
+				fail(f, -1, "compiled Go (go/types) rejects the expression ("+f.CEMsg+") but gomacro compiles it", "compiles: "+f.gmFunc, "compile_error")
+				// the per-row results of gomacro are not comparable with anything
+				f.gm = nil
+			}
+			record(f, -1, "compile_error")
+			continue
+		}
+		ncompiled++
+		if f.gmErr != "" {
+			fail(f, -1, "gomacro rejects an expression that compiled Go accepts", "compile_error: "+f.gmErr, "compiles, type "+f.wantFuncType())
+			record(f, -1, "compile_error")
+			continue
+		}
+		if f.gmFunc != f.wantFuncType() {
+			fail(f, -1, "type of the interpreted function differs", f.gmFunc, f.wantFuncType())
+			record(f, -1, "compile_error")
+			continue
+		}
+		for i := range f.Set.Rows {
+			want, ok := res.lines[[2]int{f.ID, i}]
+			if !ok {
+				fmt.Fprintf(os.Stderr, "c01: HARNESS DEFECT: the oracle printed no line for function %d row %d (%s)\n", f.ID, i, f.Src)
+				os.Exit(2)
+			}
+			got := f.gmType + " " + f.gm[i].S
+			if got != want {
+				fail(f, i, "value or type differs from compiled Go", got, want)
+			}
+			record(f, i, f.gm[i].S)
+		}
+	}
+
+	// ---- Coq cases: an even sample of every (operator, kind, shape) group of the integer / bool / string cases
+	header := "From Coq Require Import List NArith ZArith.\nFrom Verif Require Import Common.GoStr GoLite.Syntax GoLite.Sem C01.Model.\nRequire Gen_binary_ops Gen_binary_shifts Gen_binary_relops Gen_binary_eqlneq Gen_unary_ops Gen_identifier Gen_util.\nImport ListNotations.\nOpen Scope Z_scope.\nDefinition tables := Gen_binary_ops.table ++ Gen_binary_shifts.table ++ Gen_binary_relops.table ++ Gen_binary_eqlneq.table ++ Gen_unary_ops.table ++ Gen_identifier.table ++ Gen_util.table."
+	cases := vh.NewCases(a, header, "case", "mismatches tables", 400)
+	quota := 5
+	if a.Thorough() {
+		quota = 32
+	}
+	if a.N > 0 {
+		quota = a.N
+	}
+	idx := 0
+	outcomeOf := func(c caseRef) Outcome {
+		if c.row < 0 || c.f.gm == nil {
+			if c.f.gmErr != "" {
+				return Outcome{S: "compile_error"}
+			}
+			return Outcome{S: "panic:other(not comparable)"}
+		}
+		return c.f.gm[c.row]
+	}
+	for _, gk := range gorder {
+		cs := groups[gk]
+		pick := map[int]bool{}
+		for i := 0; i < quota && i < len(cs); i++ {
+			pick[i*len(cs)/quota] = true
+		}
+		// every non-value outcome class of the group is represented at least once
+		seen := map[string]bool{}
+		for i, c := range cs {
+			if o := outcomeOf(c).S; !strings.HasPrefix(o, "v:") && !seen[o] {
+				seen[o] = true
+				pick[i] = true
+			}
+		}
+		var is []int
+		for i := range pick {
+			is = append(is, i)
+		}
+		sort.Ints(is)
+		for _, i := range is {
+			c := cs[i]
+			o := outcomeOf(c)
+			obs := coqObs(o)
+			if obs == "" {
+				continue
+			}
+			row := c.row
+			if row < 0 {
+				row = 0 // compile error: any operand value, the first tuple of the set
+			}
+			ax, bx := c.f.operands(row)
+			bs := "VUnit"
+			if bx != nil {
+				bs = coqVal(*bx)
+			}
+			cases.Add(coqCase(idx, c.f, coqVal(*ax), bs, obs))
+			rep.CaseInput(idx, map[string]string{"func": c.f.Src, "operands": c.f.operandText(row), "placement": c.f.Place, "gomacro": o.S})
+			idx++
+		}
+	}
+	cases.Close()
+
+	rep.Extra["coq_cases"] = idx
+	rep.Extra["functions"] = len(g.fns)
+	rep.Extra["functions_compiled_go"] = ncompiled
+	rep.Extra["functions_expected_compile_error"] = nce
+	rep.Extra["operand_sets"] = len(g.allSets)
+	rep.Extra["failures_total"] = nfail
+	rep.Extra["total_seconds"] = time.Since(tStart).Seconds()
+	for _, f := range g.fns {
+		if len(rep.Samples) >= 4 {
+			break
+		}
+		if f.ID%997 == 5 && f.gm != nil {
+			rep.Sample(map[string]string{"func": f.Src, "operands": f.operandText(0), "gomacro": f.gmType + " " + f.gm[0].S})
+		}
+	}
+	rep.Sample("corpus: " + corpusUint64Depth3 + " ; f(7) = 107")
+	rep.Write()
 }
